@@ -473,7 +473,10 @@ func builtinLoadString(env *LEnv, args *LVal) *LVal {
 	// stack but the stack frame TROBlock will prevent tail recursion
 	// optimization from unwinding the stack to/beyond this point.
 	env.Runtime.Stack.Top().TROBlock = true
-	v := env.root().LoadString(_name, source.Str)
+	// ... and under the context of THIS evaluation: the root environment's own
+	// context is whatever it was left with (nothing, when load-string is called
+	// from inside a function body), and cancellation must reach the loaded code.
+	v := env.root().LoadStringContext(env.Context(), _name, source.Str)
 	if v.Type == LError && v.CallStack() == nil {
 		v.SetCallStack(env.Runtime.Stack.Copy())
 	}
@@ -501,7 +504,7 @@ func builtinLoadBytes(env *LEnv, args *LVal) *LVal {
 	// stack but the stack frame TROBlock will prevent tail recursion
 	// optimization from unwinding the stack to/beyond this point.
 	env.Runtime.Stack.Top().TROBlock = true
-	v := env.root().Load(_name, bytes.NewReader(source.Bytes()))
+	v := env.root().LoadContext(env.Context(), _name, bytes.NewReader(source.Bytes()))
 	if v.Type == LError && v.CallStack() == nil {
 		v.SetCallStack(env.Runtime.Stack.Copy())
 	}
@@ -519,7 +522,7 @@ func builtinLoadFile(env *LEnv, args *LVal) *LVal {
 	// stack but the stack frame TROBlock will prevent tail recursion
 	// optimization from unwinding the stack to/beyond this point.
 	env.Runtime.Stack.Top().TROBlock = true
-	v := env.root().LoadFile(loc.Str)
+	v := env.root().LoadFileContext(env.Context(), loc.Str)
 	if v.Type == LError && v.CallStack() == nil {
 		v.SetCallStack(env.Runtime.Stack.Copy())
 	}
